@@ -735,9 +735,67 @@ def case_wls(case):
     return {"behaviour": beh, "violations": viol, "stats": {"wls_levels": len(WLS_LEVELS)}}
 
 
+# ------------------------------------------------------------------ part: tables estimated by a real fit on a baseline with holes
+def case_fitted(case):
+    """the occupancy lookup and bin tables as the library itself estimates them from a baseline in which one hour of the week is
+    never metered (weekly maintenance): in every prediction design matrix of the fitted model the bin features of an hour still
+    total its temperature and only one of the two families is non-zero"""
+    from opendsm.eemeter.models.hourly_caltrack import HourlyBaselineData as CB, HourlyModel as CM
+    from opendsm.eemeter.models.hourly_caltrack.segmentation import iterate_segmented_dataset, segment_time_series
+
+    from .. import datasets as ds
+
+    zone = case["zone"]
+    fr = ds.hourly_frame(start="2021-01-01", days=365, tz=zone, wseed=1, seed=1)
+    how_b = fr.index.dayofweek * 24 + fr.index.hour
+    for h in case["holes"]:
+        fr.loc[how_b == h, "observed"] = np.nan
+    key = {"part": "fitted_tables"}
+    where0 = f"zone={zone} hours of the week never metered={case['holes']}"
+    viol = []
+    try:
+        wrapper = CM().fit(CB(fr, is_electricity_data=True))
+        model = wrapper.model.model
+        start = ref.local_epoch(2022, 1, 1, zone)
+        idx, epochs = make_index(zone, start, ref.local_epoch(2023, 1, 1, zone))
+        temps = cycle_temps(idx)
+        pseg = segment_time_series(idx, model.prediction_segment_type, drop_zero_weight_segments=True)
+        items = list(iterate_segmented_dataset(
+            temps.to_frame("temperature_mean"), segmentation=pseg,
+            feature_processor=model.prediction_feature_processor,
+            feature_processor_kwargs=model.prediction_feature_processor_kwargs,
+            feature_processor_segment_name_mapping=model.prediction_segment_name_mapping))
+    except Exception as exc:  # noqa
+        return {"behaviour": "raise_" + type(exc).__name__,
+                "violations": [{"clause": "design_raised", "key": dict(key, exc=type(exc).__name__),
+                                "detail": f"{where0}: {type(exc).__name__}: {str(exc)[:200]}"}]}
+    n_rows = 0
+    for seg_name, dm in items:
+        occ_cols = [c for c in dm.columns if str(c).endswith("_occupied")]
+        unocc_cols = [c for c in dm.columns if str(c).endswith("_unoccupied")]
+        own = dm["weight"].to_numpy(dtype=float) > 0
+        O = dm[occ_cols].to_numpy(dtype=float)[own]
+        U = dm[unocc_cols].to_numpy(dtype=float)[own]
+        T = temps.reindex(dm.index).to_numpy(dtype=float)[own]
+        ix = dm.index[own]
+        n_rows += int(own.sum())
+        both = np.flatnonzero((O != 0).any(axis=1) & (U != 0).any(axis=1))
+        if len(both):
+            i = int(both[0])
+            viol.append({"clause": "occ_unocc_both_nonzero", "key": key,
+                         "detail": f"{where0} segment={seg_name}: {ix[i]} (T={T[i]}) occupied={O[i].tolist()} unoccupied={U[i].tolist()} ({len(both)} rows)"})
+        tot = np.concatenate([O, U], axis=1).sum(axis=1)
+        bad = np.flatnonzero(~(np.abs(tot - T) <= 2 * np.spacing(np.abs(T))))
+        if len(bad):
+            i = int(bad[0])
+            viol.append({"clause": "design_bins_sum", "key": key,
+                         "detail": f"{where0} segment={seg_name}: {ix[i]} has T={T[i]} but its bin features total {tot[i]} ({len(bad)} rows)"})
+    return {"behaviour": {"segments": len(items), "rows": n_rows}, "violations": viol, "stats": {"design_rows": n_rows}}
+
+
 # ------------------------------------------------------------------ driver
 PARTS = {"weights": case_weights, "routing": case_routing, "bins": case_bins, "how": case_how, "occupancy": case_occupancy,
-         "wls": case_wls}
+         "wls": case_wls, "fitted": case_fitted}
 
 
 def run_case(case):
@@ -746,7 +804,10 @@ def run_case(case):
 
 def cases(tier):
     """Simplest-first.  quick = thorough minus the fine (1/10 degree) temperature lattice."""
-    out = {"weights": [], "how": [], "wls": [], "bins": [], "occupancy": [], "routing": []}
+    out = {"weights": [], "how": [], "wls": [], "bins": [], "occupancy": [], "routing": [], "fitted": []}
+    for zone in (ZONES[1:2] if tier == "quick" else ZONES):
+        for holes in ([50], [0, 167], []):
+            out["fitted"].append({"part": "fitted", "zone": zone, "holes": holes})
     for n1, nh, n0 in itertools.product((1, 3, 8), (0, 1, 3, 8), (0, 1, 3, 8)):
         for order in ("grouped", "reversed"):
             out["wls"].append({"part": "wls", "n_full": n1, "n_half": nh, "n_zero": n0, "order": order})
@@ -801,6 +862,8 @@ RULES = {
                  "behaviour = segments and rows per active side",
     "routing": "one case = (zone, fitted segment type, marker model, entry point, window); behaviour = hours answered by the own-month "
                "model per month",
+    "fitted": "one case = (zone, hours of the week never metered in the baseline): a real CalTRACK hourly fit, then every prediction "
+              "design matrix of a year; behaviour = segments and rows checked",
 }
 
 
@@ -808,7 +871,7 @@ def run(tier, seed):
     cs = cases(tier)
     exps = []
     with poolmod.Pool() as pool:
-        for part in ("weights", "how", "wls", "bins", "occupancy", "routing"):
+        for part in ("weights", "how", "wls", "bins", "occupancy", "routing", "fitted"):
             exps.append(explore.explore(pool, part, MOD, "run_case", cs[part], seed=seed))
     cov = explore.merge_coverage(exps, rule="; ".join(f"[{k}] {v}" for k, v in RULES.items()) + "; all cases are non-trivial")
     for e in exps:
